@@ -23,7 +23,9 @@ type CheckConfig struct {
 	Bounded       []BoundedCheck         `json:"bounded"`
 	Replay        map[string]*ReplaySpec `json:"replay"`     // function key -> replay harness
 	SkipNames     []string               `json:"skip_names"` // labelled obligations of OTHER properties on shared functions: decided by that property's check, not here
-	Sweep         []string               `json:"sweep"`      // thorough: zero-annotation no-panic sweep over functions with this key prefix
+	LockSweep     []string               `json:"lock_sweep"` // lock mode over every function with one of these key prefixes: lockset obligations only
+	LockSweepSkip []string               `json:"lock_sweep_skip"`
+	Sweep         []string               `json:"sweep"` // thorough: zero-annotation no-panic sweep over functions with this key prefix
 }
 
 type BoundedCheck struct {
@@ -123,6 +125,13 @@ func cmdCheck(args []string) {
 		seed, _ = strconv.Atoi(s)
 	}
 	root := verifRoot()
+	shard, nshards := 0, 1
+	if sh := os.Getenv("GOVC_SHARD"); sh != "" {
+		fmt.Sscanf(sh, "%d/%d", &shard, &nshards)
+		if nshards < 1 || shard < 0 || shard >= nshards {
+			shard, nshards = 0, 1
+		}
+	}
 	var cfg CheckConfig
 	data, err := os.ReadFile(filepath.Join(root, "checks", id+".json"))
 	if err != nil {
@@ -178,7 +187,7 @@ func cmdCheck(args []string) {
 			r.Obls = keep
 		}
 		tmo := timeout
-		if r.TS != nil && tmo < 60 {
+		if r.TS != nil && r.TS != E.TS && tmo < 60 {
 			tmo = 60 // bit-vector / floating-point goals: seconds, not milliseconds; a generous limit keeps them stable under load
 		}
 		V.Solver.Discharge(tsr, r.Obls, tmo, false)
@@ -187,11 +196,80 @@ func cmdCheck(args []string) {
 		}
 		all = append(all, r.Obls...)
 	}
+	origLockFns := cfg.LockFunctions
+	if shard != 0 {
+		cfg.Functions, cfg.LockFunctions, cfg.Lemmas, cfg.Bounded, cfg.Required = nil, nil, nil, nil, nil
+	}
 	for _, k := range cfg.Functions {
 		run(k, false, false)
 	}
 	for _, k := range cfg.LockFunctions {
 		run(k, true, false)
+	}
+	// lock-discipline sweep: every function of the listed packages in lock mode; only the lockset obligations count
+	// (guarded field accessed with its mutex, no self-deadlock, unlock of a held lock, locks at return = locks at entry)
+	lockSweepFns, lockSweepErr := 0, map[string]string{}
+	if len(cfg.LockSweep) > 0 {
+		done := map[string]bool{}
+		for _, k := range origLockFns {
+			done[k] = true
+		}
+		var keys []string
+		for k := range E.P.Funcs {
+			if done[k] {
+				continue
+			}
+			skip := false
+			for _, sk := range cfg.LockSweepSkip {
+				if k == sk || strings.HasPrefix(k, sk) {
+					skip = true
+				}
+			}
+			if skip {
+				continue
+			}
+			for _, pre := range cfg.LockSweep {
+				if strings.HasPrefix(k, pre) {
+					keys = append(keys, k)
+					break
+				}
+			}
+		}
+		sort.Strings(keys)
+		for ki, k := range keys {
+			if ki%nshards != shard {
+				continue
+			}
+			V.LockOnly = true
+			tf := time.Now()
+			r := V.VerifyFunc(k, true)
+			V.LockOnly = false
+			if d := time.Since(tf).Seconds(); d > 2 && os.Getenv("GOVC_TIMES") != "" {
+				fmt.Fprintf(os.Stderr, "locksweep %s: %.1fs (%d obligations)\n", k, d, len(r.Obls))
+			}
+			if r.Error != "" {
+				lockSweepErr[k] = r.Error
+				continue
+			}
+			lockSweepFns++
+			var keep []*Obligation
+			for _, o := range r.Obls {
+				if o.Kind == "lockset" {
+					keep = append(keep, o)
+				}
+			}
+			r.Obls = keep
+			results = append(results, r)
+			tsr := E.TS
+			if r.TS != nil {
+				tsr = r.TS
+			}
+			V.Solver.Discharge(tsr, r.Obls, timeout, false)
+			for _, o := range r.Obls {
+				obTS[o] = tsr
+			}
+			all = append(all, r.Obls...)
+		}
 	}
 	for _, k := range cfg.Lemmas {
 		run(k, false, true)
@@ -441,6 +519,14 @@ func cmdCheck(args []string) {
 		"distinct_nontrivial":           countNontrivial(all),
 		"rule":                          "one SMT query per generated obligation; non-trivial = not settled by the term simplifier alone",
 	}
+	if len(cfg.LockSweep) > 0 {
+		var errs []string
+		for k, e := range lockSweepErr {
+			errs = append(errs, k+": "+e)
+		}
+		sort.Strings(errs)
+		cov["lock_sweep"] = map[string]any{"prefixes": cfg.LockSweep, "functions_checked": lockSweepFns, "functions_not_handled": errs}
+	}
 	if tier == "thorough" {
 		cov["sweep"] = map[string]any{"prefixes": cfg.Sweep, "obligations": sweepN, "not_discharged": sweepBad, "notes": sweepNotes, "label": "informational zero-annotation safety sweep; not part of the claim"}
 	}
@@ -456,7 +542,11 @@ func cmdCheck(args []string) {
 	}
 	os.MkdirAll(filepath.Join(root, "evidence"), 0o755)
 	b, _ := json.MarshalIndent(ev, "", " ")
-	os.WriteFile(filepath.Join(root, "evidence", id+".json"), b, 0o644)
+	evName := id + ".json"
+	if nshards > 1 {
+		evName = fmt.Sprintf("%s.shard%d.json", id, shard)
+	}
+	os.WriteFile(filepath.Join(root, "evidence", evName), b, 0o644)
 
 	fmt.Printf("%s %s: %d obligations, %d discharged, %d known findings, %d violations, %.1fs\n", id, tier, len(all), discharged, len(knownHit), violations, time.Since(t0).Seconds())
 	for _, l := range vioLines {
